@@ -17,6 +17,19 @@ import vlib
 LEVEL = "proof"
 MODELLED = ("hm", "ul", "pl", "sa", "rb", "xs", "av", "po", "pf")
 M32 = 0xffffffff
+# open findings of the unchanged library are generated / judged strictly only with VERIF_CONT_OPEN=1 (notes/cont.md, "Deepening round")
+OPEN = os.environ.get("VERIF_CONT_OPEN") == "1"
+def _rb_hdr():
+    # sizeof(struct iwrp) of the tree under test (a layout fact from the probe, T1); 32 on the 64-bit build: pos, len, usize, buf
+    try:
+        import re
+        m = re.search(r"CONT_sizeof_IWRB : Z := \((\d+)\)", open(os.path.join(vlib.VERIF, "coq", "Gen", "Facts.v")).read())
+        return int(m.group(1))
+    except Exception:
+        return 32
+
+
+RB_HDR = 32
 
 
 # ------------------------------------------------------------------------------------------------ helpers
@@ -53,7 +66,7 @@ def hash_u64(x):
 
 # ------------------------------------------------------------------------------------------------ generators
 def gen_hm(rng, size):
-    kind = rng.weighted([("u32", 4), ("u64", 2), ("str", 2), ("ptr", 3)])
+    kind = rng.weighted([("u32", 4), ("u64", 2), ("str", 2), ("ptr", 3), ("skv", 1)])
     # ramp scripts cross the bucket-count thresholds (64 -> 128 -> 256 and back) with observations at the borders
     ramp = rng.weighted([(0, 5), (66, 2), (72, 1), (130, 2), (140, 1), (260, 1)])
     if ramp:
@@ -93,6 +106,9 @@ def gen_hm(rng, size):
                 keys.append(hx(s))
     lines = ["hm new %s %d" % (kind, lru)]
     vid = [rng.range(1, 1000) * 1000]
+    # iwhmap_lru_init in the middle of the life of the map (entries exist, possibly a second time with another bound)
+    late = rng.weighted([(0, 3), (1, 2), (2, 1)])
+    open_ = os.environ.get("VERIF_CONT_OPEN") == "1"
 
     def val():
         vid[0] += 1
@@ -121,6 +137,9 @@ def gen_hm(rng, size):
         op = rng.weighted(w)
         if ramp and op == "clear" and rng.chance(3, 4):
             op = "get"
+        if late and (i == n // 3 or (late == 2 and i == 2 * n // 3) or rng.chance(1, 150)):
+            lines.append("hm lruinit %d" % rng.weighted([(0, 1), (1, 2), (2, 2), (3, 2), (len(live) // 2 + 1, 3), (len(live), 2), (len(live) + 1, 2), (len(live) + 5, 2), (300, 1)]))
+            lines.append("hm lru")
         k = rng.choice(live) if live and rng.chance(1, 2) else rng.choice(keys)
         if op == "put":
             lines.append("hm put %s %d" % (k, val()))
@@ -144,6 +163,9 @@ def gen_hm(rng, size):
             live = []
         else:
             lines.append("hm " + rng.choice(["iter", "lru", "shape", "count", "lru"]))
+            if rng.chance(1, 4):
+                lines.append(rng.choice(["hm evmax %d" % len(live), "hm evmax %d" % max(0, len(live) - 1), "hm evmax %d" % (len(live) + 1),
+                                         "hm create0", "hm null", "hm kvfree", "hm iter0"] + (["hm iterx"] if open_ else [])))
     if ramp and rng.chance(4, 5):
         # ramp down through the shrink thresholds (count < mask / 2), oldest or newest first
         order = list(live)
@@ -164,7 +186,7 @@ def gen_hm(rng, size):
 def gen_ul(rng, size):
     us = rng.choice([1, 2, 4, 8, 3])
     il = rng.choice([0, 0, 1, 2, 31, 32, 33, 40])
-    lines = ["ul new %d %d" % (us, il)]
+    lines = ["ul %s %d %d" % (rng.choice(["new", "new", "newinit"]), us, il)]
     universe = [hx(rng.bytes(us)) for _ in range(rng.choice([3, 10, 60]))]
     n = 0
     phase = "grow"
@@ -194,7 +216,8 @@ def gen_ul(rng, size):
                 n -= 1
         elif op == "q":
             lines.append(rng.choice(["ul find %s" % u, "ul at %d" % rng.range(0, n + 1), "ul clone", "ul dump",
-                                     "ul copy %d" % rng.choice([0, 1, 40]), "ul clone"]))
+                                     "ul copy %d" % rng.choice([0, 1, 40]), "ul clone",
+                                     "ul copy %d %s" % (rng.choice([0, 1, 2, 33]), ".".join(rng.choice(universe) for _ in range(rng.choice([1, 2, 33]))))]))
         else:
             c = rng.choice(["rmby", "sort", "clear", "reset", "rmby", "sort"])
             if c == "rmby":
@@ -208,7 +231,7 @@ def gen_ul(rng, size):
 
 
 def gen_pl(rng, size):
-    lines = ["pl new %d" % rng.choice([0, 0, 1, 2, 33])]
+    lines = ["pl %s %d" % (rng.choice(["new", "new", "newinit"]), rng.choice([0, 0, 1, 2, 33]))]
     n = 0
 
     def item():
@@ -230,17 +253,19 @@ def gen_pl(rng, size):
                 n += 1
         elif op == "take":
             c = rng.choice(["pop", "shift", "shift", "rm"])
+            # a trailing "n" = the optional osize argument is NULL.  iwlist_shift / iwlist_remove dereference it all the same
+            # (finding cont-iwlist-osize-null): those two only with VERIF_CONT_OPEN=1
             if c == "rm":
                 i2 = rng.choice([0, max(0, n - 1), n, rng.range(0, n)])
-                lines.append("pl rm %d" % i2)
+                lines.append("pl rm %d%s" % (i2, " n" if OPEN and rng.below(4) == 0 else ""))
                 if i2 < n:
                     n -= 1
             else:
-                lines.append("pl " + c); n = max(0, n - 1)
+                lines.append("pl " + c + (" n" if rng.below(4) == 0 and (c == "pop" or OPEN) else "")); n = max(0, n - 1)
         elif op == "set":
             lines.append("pl set %d %s" % (rng.choice([0, max(0, n - 1), n, rng.range(0, n)]), item()))
         else:
-            lines.append(rng.choice(["pl at %d" % rng.range(0, n + 1), "pl clone", "pl sort", "pl dump", "pl clone"]))
+            lines.append(rng.choice(["pl at %d" % rng.range(0, n + 1), "pl at %d n" % rng.range(0, n + 1), "pl clone", "pl sort", "pl dump", "pl clone"]))
     lines += ["pl clone", "pl dump", "pl destroy"]
     return {"c": "pl", "lines": lines, "tag": "pl"}
 
@@ -280,6 +305,9 @@ def gen_rb(rng, size):
     us = rng.choice([1, 2, 4])
     ln = rng.choice([1, 2, 3, 5, 8])
     lines = ["rb new %d %d" % (us, ln)]
+    if rng.below(4) == 0:
+        # the same ring inside a caller's buffer (iwrb_wrap): header + ln units + 0 .. us-1 spare bytes
+        lines = ["rb wrap %d %d" % (us, RB_HDR + us * ln + rng.below(us))]
     ctr = rng.below(200)
     for i in range(size):
         op = rng.weighted([("put", 60), ("back", 20), ("clear", 4), ("state", 6)])
@@ -293,15 +321,32 @@ def gen_rb(rng, size):
 
 
 def gen_xs(rng, size):
-    lines = ["xs new %d" % rng.choice([0, 0, 1, 2, 16, 17, 100])]
+    lines = [rng.choice(["xs new 0", "xs new 0", "xs new 1", "xs new 2", "xs new 16", "xs new 17", "xs new 100", "xs empty"])]
     sz = 0
+    tokc = [0]
 
     def data(maxn=40):
         n = rng.weighted([(0, 1), (1, 3), (5, 3), (15, 2), (16, 2), (17, 2), (maxn, 1)])
         return bytes(rng.range(1, 255) for _ in range(n))
     for i in range(size):
         op = rng.weighted([("cat", 25), ("unshift", 12), ("shift", 10), ("pop", 10), ("insert", 15), ("printf", 6),
-                           ("iprintf", 4), ("clear", 2), ("clone", 5), ("wrap", 3), ("cat2", 3)])
+                           ("iprintf", 4), ("clear", 2), ("clone", 5), ("wrap", 3), ("cat2", 3), ("setsize", 5), ("ud", 4),
+                           ("udget", 1), ("uddetach", 2), ("palloc", 2), ("newprintf", 2), ("cat2null", 1)])
+        if op == "setsize":
+            k = rng.choice([0, sz, max(0, sz - 1), sz + 1, sz + rng.range(1, 40), rng.range(0, sz + 1), sz // 2])
+            lines.append("xs setsize %d %d %d" % (k, rng.range(1, 255), rng.choice([0, 0, 65])))
+            sz = k
+            continue
+        if op == "ud":
+            tokc[0] += 1
+            lines.append("xs ud %d %d" % (rng.choice([tokc[0], tokc[0], 0]), rng.below(2)))
+            continue
+        if op in ("udget", "uddetach", "cat2null"):
+            lines.append("xs " + op); continue
+        if op in ("palloc", "newprintf"):
+            n = rng.weighted([(0, 2), (3, 4), (13, 2), (14, 2), (1021, 1), (1022, 1), (1100, 1)])
+            lines.append("xs %s %s %d" % (op, hx(bytes(rng.range(1, 255) for _ in range(n))), rng.choice([0, 7, -5])))
+            continue
         if op in ("cat", "unshift", "cat2"):
             d = data()
             lines.append("xs %s %s" % (op, hx(d))); sz += len(d)
@@ -332,7 +377,7 @@ def gen_xs(rng, size):
         else:
             d = data(20)
             lines.append("xs wrap %s %d" % (hx(d), rng.choice([0, 1, len(d), len(d) + 1, len(d) + 8, max(0, len(d) - 1)])))
-    lines += ["xs clone", "xs destroy"]
+    lines += ["xs clone", rng.choice(["xs destroy", "xs destroy", "xs keepptr"])]
     return {"c": "xs", "lines": lines, "tag": "xs"}
 
 
@@ -342,7 +387,10 @@ def gen_av(rng, size):
     mode = rng.choice(["rand", "asc", "desc", "rand"])
     c = 0
     for i in range(size):
-        op = rng.weighted([("ins", 45), ("rm", 35), ("find", 20)] if i < size * 2 // 3 else [("ins", 20), ("rm", 60), ("find", 20)])
+        op = rng.weighted([("ins", 45), ("rm", 35), ("find", 17), ("lookn", 4), ("post", 3)] if i < size * 2 // 3
+                          else [("ins", 20), ("rm", 60), ("find", 15), ("lookn", 3), ("post", 3)])
+        if op == "post":
+            lines.append("av post"); continue
         if op == "ins" and mode != "rand":
             c += 1
             k = c if mode == "asc" else span - c
@@ -360,18 +408,27 @@ def gen_po(rng, size):
     nch = 0
     alive = []
     for i in range(size):
-        op = rng.weighted([("alloc", 30), ("calloc", 8), ("strdup", 12), ("printf", 5), ("split", 14), ("cstrarr", 8),
-                           ("child", 6), ("dchild", 6), ("udata", 3), ("ref", 1), ("unref", 2)])
+        op = rng.weighted([("alloc", 30), ("calloc", 8), ("strdup", 8), ("strdupx", 6), ("printf", 4), ("printfva", 3), ("split", 14),
+                           ("psplit", 5), ("cstrarr", 8), ("child", 6), ("dchild", 6), ("udata", 3), ("ref", 1), ("unref", 2)])
         if op in ("alloc", "calloc"):
             lines.append("po %s %d" % (op, rng.weighted([(0, 1), (1, 3), (7, 2), (8, 3), (9, 2), (24, 3), (63, 1), (64, 1), (65, 1), (200, 1), (9000, 1)])))
         elif op == "strdup":
             lines.append("po strdup %s" % hx(bytes(rng.range(1, 255) for _ in range(rng.choice([0, 1, 7, 8, 30])))))
-        elif op == "printf":
-            lines.append("po printf %s %d" % (hx(bytes(rng.range(33, 126) for _ in range(rng.choice([0, 3, 40])))), rng.choice([0, -9, 4711])))
+        elif op == "strdupx":
+            lines.append("po strdupx %d %s" % (rng.below(3), hx(bytes(rng.range(1, 255) for _ in range(rng.choice([0, 1, 7, 8, 30]))))))
+        elif op in ("printf", "printfva"):
+            lines.append("po %s %s %d" % (op, hx(bytes(rng.range(33, 126) for _ in range(rng.choice([0, 3, 40])))), rng.choice([0, -9, 4711])))
         elif op == "split":
-            alpha = b"ab ,;\t x"
+            # plain text, or a haystack dominated by separators (more tokens than half its length: every slot of the pointer array
+            # of strlen + 1 entries is needed; an array that is too small is overwritten inside the pool unit, where no heap
+            # sanitizer sees it - only the token-by-token comparison does)
+            alpha = rng.choice([b"ab ,;\t x\n\r\x0b\x0c\x8a", b",,,,;;, a", b",,,,,,,,,x"])
+            hay = bytes(rng.choice(alpha) for _ in range(rng.weighted([(0, 1), (1, 2), (2, 2), (3, 3), (6, 4), (12, 3), (20, 2), (40, 1)])))
+            lines.append("po split %s %s %d" % (hx(hay), hx(rng.choice([b",", b",;", b";", b"x,", b"", b" "])), rng.below(2)))
+        elif op == "psplit":
+            alpha = b"ab ,; x"
             hay = bytes(rng.choice(alpha) for _ in range(rng.weighted([(0, 1), (1, 2), (3, 3), (6, 4), (12, 3)])))
-            lines.append("po split %s %s %d" % (hx(hay), hx(rng.choice([b",", b",;", b";", b"x,"])), rng.below(2)))
+            lines.append("po psplit %s %d %s %d" % (hx(hay), rng.choice([0, -9, 4711]), hx(rng.choice([b",", b":", b",:;", b"7"])), rng.below(2)))
         elif op == "cstrarr":
             k = rng.choice([0, 1, 2, 3, 5])
             items = [hx(bytes(rng.range(33, 126) for _ in range(rng.choice([1, 2, 7, 8, 9])))) for _ in range(k)]
@@ -714,6 +771,10 @@ def directed_pl(rng):
         body = ["pl insert %s %s" % ("%d" % i if where == "end" else "0", item()) for i in range(270)]
         body += ["pl rm %d" % (269 - i) for i in range(270)] + ["pl pop", "pl rm 0"]
         mk("insert-" + where, 0, body)
+    if OPEN:
+        # finding cont-iwlist-osize-null: iwlist_shift / iwlist_remove write through the osize pointer the header calls optional
+        ss.append({"c": "pl", "tag": "dir-pl-osize-null", "lines": ["pl new 0", "pl push 6162", "pl push 63", "pl push 64", "pl pop n", "pl at 0 n",
+                                                                     "pl shift n", "pl rm 0 n", "pl destroy"]})
     return ss
 
 
@@ -782,7 +843,7 @@ def directed_hm(rng):
             return str(1000 + 7 * i)
         if kind == "u64":
             return str((1 << 40) + 0x10001 * i)
-        if kind == "str":
+        if kind in ("str", "skv"):
             return hx(b"k%03d" % i)
         return str(5 + i)
     vid = [70000]
@@ -844,12 +905,71 @@ def directed_hm(rng):
                 lines += ["hm put %s %d" % (k, val()), "hm shape", "hm rm %s" % k]
         lines += ["hm put %s %d" % (ks[0], val()), "hm iter", "hm destroy"]
         ss.append({"c": "hm", "tag": "dir-hm-bucket%d-%s" % (top, order), "lines": lines})
+    # iwhmap_lru_init when entries exist: old entries have no node, victims come only from the keys touched since, the
+    # eviction loop stops on an empty list although count > max; a second init with a lower / higher bound; across a resize
+    for kind, pre, b1, b2 in (("u32", 6, 2, 9), ("u64", 10, 10, 3), ("str", 5, 0, 4), ("ptr", 12, 11, 1), ("skv", 7, 3, 1),
+                              ("u32", 70, 64, 10), ("str", 130, 100, 127), ("ptr", 66, 3, 200)):
+        lines = ["hm new %s -1" % kind]
+        for i in range(pre):
+            lines.append("hm put %s %d" % (key(kind, i), val()))
+        lines += ["hm evmax %d" % pre, "hm evmax %d" % (pre - 1), "hm evmax %d" % (pre + 1),
+                  "hm lruinit %d" % b1, "hm lru", "hm count", "hm shape"]
+        lines += ["hm put %s %d" % (key(kind, pre), val()), "hm lru", "hm count"]           # evicts itself when pre >= b1
+        lines += ["hm get %s" % key(kind, 0), "hm get %s" % key(kind, 1), "hm lru"]          # old entries get nodes
+        lines += ["hm put %s %d" % (key(kind, pre + 1), val()), "hm lru", "hm count", "hm iter"]
+        lines += ["hm ren %s %s" % (key(kind, 2), key(kind, pre + 2)), "hm lru"]             # node-less entry renamed
+        lines += ["hm ren %s %s" % (key(kind, 3), key(kind, 4)), "hm lru", "hm count"]       # onto a node-less live key
+        lines += ["hm rm %s" % key(kind, 4), "hm rm %s" % key(kind, 0), "hm lru"]
+        lines += ["hm put %s %d" % (key(kind, 3), val()), "hm lru", "hm shape"]
+        lines += ["hm lruinit %d" % b2, "hm lru", "hm count"]
+        for i in range(6):
+            lines += ["hm put %s %d" % (key(kind, pre + 10 + i), val()), "hm lru", "hm count"]
+        lines += ["hm get %s" % key(kind, pre // 2), "hm lru", "hm iter", "hm shape"]
+        for i in range(pre + 16):
+            lines.append("hm rm %s" % key(kind, i))
+            if i % 8 == 0:
+                lines += ["hm lru", "hm count"]
+        lines += ["hm iter", "hm put %s %d" % (key(kind, 1), val()), "hm lru", "hm clear", "hm lruinit 2",
+                  "hm put %s %d" % (key(kind, 1), val()), "hm put %s %d" % (key(kind, 2), val()),
+                  "hm put %s %d" % (key(kind, 3), val()), "hm lru", "hm iter", "hm destroy"]
+        ss.append({"c": "hm", "tag": "dir-hm-lruinit-%s-%d" % (kind, pre), "lines": lines})
+    # header functions without a live map, eviction predicate at count == max / max + 1, iterator on empty / one-entry maps,
+    # ownership of keys: str map, rename of an absent key (the caller keeps key_new), replace, clear, destroy with entries left
+    for kind in ("str", "skv", "u64"):
+        lines = ["hm create0", "hm null", "hm kvfree", "hm iter0", "hm new %s 3" % kind, "hm iter", "hm iter0", "hm evmax 0",
+                 "hm put %s %d" % (key(kind, 1), val()), "hm iter", "hm evmax 0", "hm evmax 1", "hm evmax 2",
+                 "hm ren %s %s" % (key(kind, 7), key(kind, 8)), "hm ren %s %s" % (key(kind, 1), key(kind, 1)), "hm iter",
+                 "hm put %s %d" % (key(kind, 1), val()), "hm put %s 0" % key(kind, 2), "hm put %s %d" % (key(kind, 3), val()),
+                 "hm evmax 3", "hm evmax 2", "hm put %s %d" % (key(kind, 4), val()), "hm lru", "hm iter",
+                 "hm ren %s %s" % (key(kind, 3), key(kind, 4)), "hm iter", "hm clear", "hm iter", "hm null",
+                 "hm put %s %d" % (key(kind, 5), val()), "hm put %s %d" % (key(kind, 6), val()), "hm create0", "hm destroy"]
+        ss.append({"c": "hm", "tag": "dir-hm-header-" + kind, "lines": lines})
+    if os.environ.get("VERIF_CONT_OPEN") == "1":
+        # open finding hmap-iter-next-past-end: one more iwhmap_iter_next after the call that returned false
+        ss.append({"c": "hm", "tag": "dir-hm-iterx", "lines": ["hm new u32 -1", "hm iterx", "hm put 1 5", "hm iterx", "hm destroy"]})
     return ss
 
 
 def directed_rb(rng):
     ss = []
     ctr = [0]
+    # iwrb_wrap: buffer sizes around "header + k units" for k = 0, 1, 2, 3 (NULL below header + one unit)
+    for us in (1, 2, 4, 7):
+        lines = []
+        for k in (0, 1, 2, 3):
+            for dl in (-1, 0, 1):
+                bl = RB_HDR + k * us + dl
+                lines += ["rb wrap %d %d" % (us, bl), "rb put 11", "rb put 22", "rb state", "rb back", "rb put 33", "rb put 44", "rb put 55",
+                          "rb state", "rb back", "rb state"]
+        lines += ["rb wrap %d 0" % us, "rb state", "rb wrap %d %d" % (us, RB_HDR - 1), "rb wrap %d %d" % (us, RB_HDR + 5 * us), "rb put aa", "rb destroy"]
+        ss.append({"c": "rb", "tag": "dir-rb-wrap-us%d" % us, "lines": lines})
+    if OPEN:
+        # open findings of the unchanged library (see notes/cont.md): a ring of capacity 0 accepts a put (heap overflow)
+        ss.append({"c": "rb", "tag": "dir-rb-cap0", "lines": ["rb new 4 0", "rb state", "rb put 01020304", "rb state", "rb destroy"]})
+        # ... and iwrb_wrap with a unit size of 0 divides by zero
+        ss.append({"c": "rb", "tag": "dir-rb-wrap-usize0", "lines": ["rb wrap 0 64", "rb state"]})
+        # the strict deque reading of iwrb_back on a wrapped ring (finding cont-rb-back-wrapped)
+        ss.append({"c": "rb", "tag": "dir-rb-back-wrapped", "lines": ["rb new 1 3", "rb put 01", "rb put 02", "rb put 03", "rb put 04", "rb back", "rb state", "rb destroy"]})
 
     def put():
         ctr[0] += 1
@@ -861,6 +981,54 @@ def directed_rb(rng):
         lines += ["rb back"] * (ln + 2) + [put() for _ in range(2 * ln + 1)] + ["rb state", "rb clear", "rb state"]
         lines += [put() for _ in range(ln)] + ["rb back"] * ln + ["rb state", put(), "rb destroy"]
         ss.append({"c": "rb", "tag": "dir-rb-len%d" % ln, "lines": lines})
+    return ss
+
+
+def _fib_shape(h, lo):
+    """(shape, next free key): minimal AVL tree of height h (left subtree the higher one), keys lo.. in in-order"""
+    if h <= 0:
+        return None, lo
+    l, k = _fib_shape(h - 1, lo)
+    r, nxt = _fib_shape(h - 2, k + 1)
+    return (k, l, r), nxt
+
+
+def _bfs_keys(t):
+    out, q = [], [t]
+    while q:
+        n = q.pop(0)
+        if n:
+            out.append(n[0]); q += [n[1], n[2]]
+    return out
+
+
+def directed_av(rng):
+    ss = []
+
+    def mk(tag, body):
+        ss.append({"c": "av", "tag": "dir-av-" + tag, "lines": ["av new", "av post"] + body + ["av post", "av destroy"]})
+    n = 40
+    mk("asc", ["av ins %d" % k for k in range(1, n + 1)] + ["av post"] + ["av rm %d" % k for k in range(1, n + 1)])
+    mk("desc", ["av ins %d" % k for k in range(n, 0, -1)] + ["av post"] + ["av rm %d" % k for k in range(n, 0, -1)])
+    zig = [x for p in zip(range(1, n // 2 + 1), range(n, n // 2, -1)) for x in p]
+    mk("zigzag", ["av ins %d" % k for k in zig] + ["av post"] + ["av lookn %d" % k for k in (0, 1, n // 2, n, n + 1)] +
+       ["av rm %d" % k for k in reversed(zig)])
+    mk("dups", ["av ins 5", "av ins 5", "av ins 3", "av ins 3", "av ins 8", "av rm 4", "av rm 5", "av rm 5", "av ins 5", "av find 5", "av find 4"])
+    # minimal (Fibonacci) trees: every removal on the short side retraces with rotations towards the root
+    for h in (3, 4, 5, 6, 7):
+        shape, nxt = _fib_shape(h, 1)
+        keys = _bfs_keys(shape)
+        ins = ["av ins %d" % k for k in keys]
+        for order, ks in (("max", sorted(keys, reverse=True)), ("min", sorted(keys)), ("root", keys), ("leaves", list(reversed(keys)))):
+            body = list(ins) + ["av post"]
+            for j, k in enumerate(ks):
+                body.append("av rm %d" % k)
+                if j % 5 == 4:
+                    body += ["av post", "av lookn %d" % ks[-1]]
+            mk("fib%d-%s" % (h, order), body)
+    # removal of a node with two children whose successor is / is not its right child, at the root and deeper
+    mk("two-children", ["av ins %d" % k for k in (50, 30, 70, 20, 40, 60, 80, 35, 45, 65)] +
+       ["av rm 50", "av post", "av rm 30", "av rm 60", "av post", "av rm 70", "av rm 65", "av rm 80", "av post"])
     return ss
 
 
@@ -909,6 +1077,38 @@ def directed_xs(rng):
         lines += ["xs printf %s 7" % filler(n), "xs iprintf 1 %s 7" % filler(n), "xs clear"]
     lines += ["xs destroy"]
     ss.append({"c": "xs", "tag": "dir-xs-jump", "lines": lines})
+    # iwxstr_set_size: shrink to every size (no terminator is written: the byte there is the old data byte), keep, grow by 1,
+    # to asize - 1 (fits), to asize (one more byte: doubling), far beyond (jump); then the calls that copy the byte after the
+    # data along (insert) or do nothing (shift 0, pop 0) and the ones that terminate again
+    for init in (0, 1, 17):
+        asz = init or 16
+        lines = ["xs new %d" % init, "xs cat " + filler(9)]
+        sz = 9
+        for k in (8, 8, 3, 0, 0):
+            lines += ["xs setsize %d 1 0" % k, "xs pop 0", "xs shift 0", "xs insert 0 -", "xs insert %d 6162" % (k // 2)]
+            sz = k + 2
+            lines += ["xs clone", "xs setsize %d 1 0" % (sz - 1), "xs cat 63"]
+            sz = sz
+        for k in (sz + 1, max(asz, sz) - 1, max(asz, sz), max(asz, sz) * 2, max(asz, sz) * 4 + 3, 5000):
+            lines += ["xs setsize %d 120 0" % k, "xs clone", "xs setsize %d 121 65" % (k + 1), "xs insert 1 7a7a", "xs cat 41", "xs clone"]
+            asz = grow(asz, k + 2)
+        lines += ["xs setsize 2 1 0", "xs unshift 7171", "xs setsize 1 1 0", "xs clear", "xs cat2null", "xs destroy"]
+        ss.append({"c": "xs", "tag": "dir-xs-setsize-%d" % init, "lines": lines})
+    # the other entry points of the printf family around the 1024 byte stack buffer and around the first allocation of
+    # iwxstr_printf_alloc (asize 0 -> exactly the need) / iwxstr_new_printf (asize 16: 13 + ":7" + NUL fits, 14 grows)
+    lines = ["xs empty"]
+    for n in (0, 1, 12, 13, 14, 15, 29, 30, 1020, 1021, 1022, 1023, 1024, 3000):
+        lines += ["xs palloc %s 7" % filler(n), "xs newprintf %s 7" % filler(n)]
+    lines += ["xs destroy"]
+    ss.append({"c": "xs", "tag": "dir-xs-printf-entry", "lines": lines})
+    # user data: every order of set (with / without destructor, NULL datum) / get / detach, ended by destroy or destroy_keep_ptr
+    k = 0
+    for end in ("destroy", "keepptr"):
+        for seq in (["ud 1 1"], ["ud 1 0"], ["ud 1 1", "ud 2 1"], ["ud 1 1", "uddetach"], ["ud 1 1", "uddetach", "ud 2 1"],
+                    ["ud 1 0", "ud 2 1", "udget"], ["ud 0 1"], ["ud 0 1", "ud 3 1", "uddetach", "uddetach", "udget"],
+                    ["udget", "uddetach"], ["ud 1 1", "ud 2 0", "ud 3 1", "ud 4 1", "uddetach", "ud 5 1"]):
+            lines = ["xs new 0", "xs cat 6162"] + ["xs " + x for x in seq] + ["xs udget", "xs " + end]
+            ss.append({"c": "xs", "tag": "dir-xs-ud-%d" % k, "lines": lines}); k += 1
     return ss
 
 
@@ -955,12 +1155,28 @@ def directed_po(rng):
                           "po strdup " + hx(b"abcdefg"), "po strdup " + hx(b"abcdefgh"), "po printf %s 7" % hx(b"xy"),
                           "po alloc %d" % (2 * asz), "po alloc 0", "po destroy"]
                 ss.append({"c": "po", "tag": "dir-po-%d-%d%+d" % (siz, rest, d), "lines": lines})
+    # iwpool_split_string: every shape of the token rule (separator first / last / doubled, blank tokens, a last token of blanks
+    # only, one character, nothing) with and without trimming, on a pool whose unit ends inside the token allocations
+    hays = [b"", b",", b"a", b" ", b"a,", b",a", b"a,b", b"a,,b", b",,", b" a , b ", b"a, ,b", b" , ", b"  ", b"a,b,", b"a,b, ", b"\t\n a\r,\x0b\x0cb ",
+            b"abc;def,ghi", b" ;, ", b"x" * 30 + b"," + b"y" * 30, b", ,bcd,e", b"a, ,bcd,e",
+            # separators only / almost only: strlen tokens need strlen + 1 pointer slots
+            b",,,", b",,,,,,,,,,,,", b"id,,,,,,,,x", b";" * 20, b",a,,b,,,c,,,,", b"," * 63, b"k,,,,,,,,,,,,,,,,,,,,,,,,,,,,,,v"]
+    for ws in (0, 1):
+        for unit in (8, 64):
+            lines = ["po new %d" % unit]
+            for h in hays:
+                lines.append("po split %s %s %d" % (hx(h), hx(b",;"), ws))
+            lines += ["po psplit %s 42 %s %d" % (hx(b"k, v"), hx(b",:"), ws), "po psplit - 0 %s %d" % (hx(b":"), ws),
+                      "po psplit %s 1 %s %d" % (hx(b",,,,,,,,,,"), hx(b",:"), ws),
+                      "po printfva %s -1" % hx(b"abc"), "po strdupx 0 %s" % hx(b"abcdefgh"), "po strdupx 1 %s" % hx(b"abcdefg"),
+                      "po strdupx 2 -", "po destroy"]
+            ss.append({"c": "po", "tag": "dir-po-split-ws%d-u%d" % (ws, unit), "lines": lines})
     return ss
 
 
 def directed(rng):
     out = []
-    for f in (directed_pl, directed_ul, directed_hm, directed_rb, directed_xs, directed_sa, directed_po, directed_pf):
+    for f in (directed_pl, directed_ul, directed_hm, directed_rb, directed_xs, directed_sa, directed_av, directed_po, directed_pf):
         out += f(rng.fork())
     return out
 
@@ -979,7 +1195,8 @@ def oracle_hm(lines, outs):
         return [x for x in ([] if f == "-" else f.split(",")) if x != "0/0"]
 
     def exp(pairs):
-        return [x for x in ("%s/%s" % p for p in pairs) if x != "0/0"]
+        # kind skv: kv_free_fn = iwhmap_kv_free, nothing is logged (ASan / LSan judge the releases)
+        return [] if kind == "skv" else [x for x in ("%s/%s" % p for p in pairs) if x != "0/0"]
     for i, (l, o) in enumerate(zip(lines, outs)):
         t = l.split()
         op = t[1]
@@ -989,6 +1206,30 @@ def oracle_hm(lines, outs):
             continue
         if "FAULT" in o:
             bad.append((i, "model-side fault marker in implementation output")); continue
+        if op == "create0":
+            if o != "null=1":
+                bad.append((i, "iwhmap_create without hash function returned a map: %s" % o))
+            continue
+        if op in ("null", "kvfree"):
+            if o != "ok":
+                bad.append((i, "%s: %s" % (op, o)))
+            continue
+        if op == "iter0":
+            if r.get("r") != "00":
+                bad.append((i, "iwhmap_iter_next on an iterator without map returned true: %s" % o))
+            continue
+        if kind is None or o == "nohm":
+            continue
+        if op == "lruinit":
+            # iwhmap_lru_init at any time: the bound changes, the recency list keeps what it has (nothing when LRU was off)
+            lru = int(t[2])
+            if o != "ok":
+                bad.append((i, "lruinit: %s" % o))
+            continue
+        if op == "evmax":
+            if r.get("r") != ("1" if len(d) > int(t[2]) else "0"):
+                bad.append((i, "iwhmap_lru_eviction_max_count(%s) with %d entries answered %s" % (t[2], len(d), o)))
+            continue
         if op == "put":
             k, v = t[2], t[3]
             ef = []
@@ -1010,7 +1251,9 @@ def oracle_hm(lines, outs):
             k = t[2]
             ev = d.get(k)
             if k in d and lru >= 0:
-                rec.remove(k); rec.append(k)
+                if k in rec:
+                    rec.remove(k)
+                rec.append(k)
             if r.get("v") != ("nil" if ev in (None, "0") else ev) or r.get("n") != str(len(d)) or flog(o):
                 bad.append((i, "get: %s, reference v=%s n=%d" % (o, ev, len(d))))
         elif op == "rm":
@@ -1020,7 +1263,7 @@ def oracle_hm(lines, outs):
             if k in d:
                 er = "1"
                 ef.append((fk(k), d.pop(k)))
-                if lru >= 0:
+                if k in rec:
                     rec.remove(k)
             if r.get("r") != er or r.get("n") != str(len(d)) or flog(o) != exp(ef):
                 bad.append((i, "remove: %s, reference r=%s n=%d freed %s" % (o, er, len(d), exp(ef))))
@@ -1033,10 +1276,11 @@ def oracle_hm(lines, outs):
                 if b in d:
                     ef.append((fk(b), d[b]))
                 d[b] = v
-                if lru >= 0:
+                if a in rec:
                     rec.remove(a)
-                    if b in rec:
-                        rec.remove(b)
+                if b in rec:
+                    rec.remove(b)
+                if lru >= 0:
                     rec.append(b)
             if r.get("rc") != "0" or r.get("n") != str(len(d)) or flog(o) != exp(ef):
                 bad.append((i, "rename: %s, reference n=%d freed %s" % (o, len(d), exp(ef))))
@@ -1048,11 +1292,15 @@ def oracle_hm(lines, outs):
         elif op == "count":
             if r.get("n") != str(len(d)):
                 bad.append((i, "count %s, reference %d" % (o, len(d))))
-        elif op == "iter":
+        elif op in ("iter", "iterx"):
             it = r.get("it", "-")
             got = sorted([] if it == "-" else it.split(","))
             if got != sorted("%s:%s" % p for p in d.items()):
                 bad.append((i, "iteration differs from the reference map: %d pairs, reference %d" % (len(got), len(d))))
+            if r.get("st") != str(len(d)):
+                bad.append((i, "iterator made %s successful steps on a map of %d entries" % (r.get("st"), len(d))))
+            if op == "iterx" and r.get("again") != "0":
+                bad.append((i, "iwhmap_iter_next after the end of the iteration did not return false: %s" % o[-60:]))
         elif op == "lru":
             er = ",".join(rec) if (lru >= 0 and rec) else "-"
             if r.get("wf") != "1" or r.get("lru") != er:
@@ -1092,9 +1340,13 @@ def oracle_ul(lines, outs):
         op = t[1]
         r = kv(o)
         rc = "0"
-        if op == "new":
+        if op in ("new", "newinit"):
             ref, us = [], int(t[2])
             state(i, o, op); continue
+        if op == "destroy":
+            if o != "d":
+                bad.append((i, "destroy: %s (iwulist_destroy_keep must zero the caller's struct)" % o))
+            continue
         if op == "brief":
             continue
         if op == "push":
@@ -1145,6 +1397,13 @@ def oracle_ul(lines, outs):
                 bad.append((i, "at(%d): %s, reference rc=%s v=%s" % (j, o, e[0], e[1])))
             continue
         elif op in ("clone", "copy"):
+            if op == "copy" and len(t) > 3:
+                # iwulist_copy into a target that already holds units: they stay in front
+                keep = ref
+                ref = [norm(h) for h in t[3].split(".")] + keep
+                state(i, o, op)
+                ref = keep
+                continue
             state(i, o, op); continue
         elif op in ("clear", "reset"):
             ref = []
@@ -1192,7 +1451,7 @@ def oracle_pl(lines, outs):
         rc, ev = "0", None
         if op == "brief":
             continue
-        if op == "new":
+        if op in ("new", "newinit"):
             ref = []
         elif op == "push":
             ref.append(t[2])
@@ -1227,8 +1486,10 @@ def oracle_pl(lines, outs):
         elif op == "sort":
             ref.sort(key=lambda h: unhx(h))
         elif op == "destroy":
+            if o != "d":
+                bad.append((i, "destroy: %s (iwlist_destroy_keep must reset the caller's struct)" % o))
             continue
-        if op not in ("new", "clone") and r.get("rc") != rc:
+        if op not in ("new", "newinit", "clone") and r.get("rc") != rc:
             bad.append((i, "%s returned %s, reference %s" % (op, r.get("rc"), rc)))
         state(i, o, op)
     return bad
@@ -1302,6 +1563,28 @@ def oracle_rb(lines, outs):
         if op == "new":
             d, stale, wrapped, ln = [], 0, False, int(t[3])
             us = int(t[2])
+            if ln == 0:
+                # a ring without slots cannot hold a unit: the reference refuses to create it (finding cont-rb-capacity-zero)
+                ln = None
+                if o != "null":
+                    bad.append((i, "iwrb_create with capacity 0 must fail: %s" % o[:100]))
+                continue
+        elif op == "wrap":
+            us, bl = int(t[2]), int(t[3])
+            d, stale, wrapped = [], 0, False
+            if us == 0 or bl < RB_HDR + us:
+                ln = None
+                if o != "null":
+                    bad.append((i, "iwrb_wrap of a %d byte buffer (unit %d) must fail: %s" % (bl, us, o[:100])))
+                continue
+            ln = (bl - RB_HDR) // us
+            if o == "null" or kv(o).get("len") != str(ln) or kv(o).get("inbuf") != "1":
+                bad.append((i, "iwrb_wrap(%d bytes, unit %d): %s, reference capacity %d inside the buffer" % (bl, us, o[:100], ln)))
+                continue
+        elif ln is None:
+            if o != "norb":
+                bad.append((i, "no ring exists, answer %s" % o[:80]))
+            continue
         elif op == "put":
             if len(d) + stale >= ln:
                 wrapped = True
@@ -1320,7 +1603,7 @@ def oracle_rb(lines, outs):
             d, stale, wrapped = [], 0, False
         r = kv(o)
         it = _units(r.get("it", "-"))
-        if stale == 0:
+        if stale == 0 or OPEN:
             ok = r.get("n") == str(len(d)) and it == d and r.get("pk") == (d[0] if d else "nil")
         else:
             ok = it[:len(d)] == d and (not d or r.get("pk") == d[0]) and len(it) <= ln
@@ -1332,6 +1615,8 @@ def oracle_rb(lines, outs):
 def oracle_xs(lines, outs):
     bad = []
     ref = bytearray()
+    term = 0          # the byte where the terminator belongs (iwxstr_set_size writes none)
+    ud, udfn = 0, False   # user datum (token, 0 = NULL) and whether a destructor guards it
 
     def fmt(s, v):
         return unhx(s) + b":" + str(int(v)).encode()
@@ -1340,20 +1625,54 @@ def oracle_xs(lines, outs):
         op = t[1]
         r = kv(o)
         rc = "0"
-        if op == "destroy":
+        if op in ("destroy", "keepptr"):
+            e = str(ud) if udfn else "-"
+            if r.get("ud") != e:
+                bad.append((i, "%s: destructor calls %s, reference %s" % (op, r.get("ud"), e)))
+            if op == "keepptr" and (r.get("v") != hx(ref) or r.get("z") != ("1" if term == 0 else "0")):
+                bad.append((i, "destroy_keep_ptr: buffer %s, reference %s" % (o[:160], hx(ref)[:120])))
+            ud, udfn = 0, False
             continue
-        if op == "new":
-            ref = bytearray()
+        if op in ("ud", "udget", "uddetach"):
+            e = "-"
+            if op == "ud":
+                if udfn:
+                    e = str(ud)
+                ud, udfn = int(t[2]), t[3] != "0"
+            else:
+                if r.get("v") != str(ud):
+                    bad.append((i, "%s returned %s, reference %d" % (op, r.get("v"), ud)))
+                if op == "uddetach":
+                    udfn = False
+            if r.get("ud") != e:
+                bad.append((i, "%s: destructor calls %s, reference %s" % (op, r.get("ud"), e)))
+            continue
+        if op in ("palloc", "newprintf"):
+            e = fmt(t[2], t[3])
+            if op == "palloc":
+                if r.get("v") != hx(e) or r.get("us") != "1":
+                    bad.append((i, "printf_alloc: %s, reference %s in a block with room for the terminator" % (o[:160], hx(e)[:120])))
+            elif r.get("sz") != str(len(e)) or r.get("d") != hx(e) or r.get("z") != "1" or int(r.get("asz", "0")) <= len(e):
+                bad.append((i, "new_printf: %s, reference %s" % (o[:160], hx(e)[:120])))
+            continue
+        if op in ("new", "empty"):
+            ref = bytearray(); term = 0
+            ud, udfn = 0, False
         elif op in ("cat", "cat2"):
-            ref += unhx(t[2])
+            ref += unhx(t[2]); term = 0
+        elif op == "cat2null":
+            pass
         elif op == "unshift":
-            ref[0:0] = unhx(t[2])
+            ref[0:0] = unhx(t[2]); term = 0
         elif op == "shift":
-            del ref[:min(int(t[2]), len(ref))]
+            if int(t[2]):
+                del ref[:min(int(t[2]), len(ref))]; term = 0
         elif op == "pop":
             k = min(int(t[2]), len(ref))
             if k:
                 del ref[len(ref) - k:]
+            if int(t[2]):
+                term = 0
         elif op in ("insert", "iprintf"):
             p = int(t[2])
             b = unhx(t[3]) if op == "insert" else fmt(t[3], t[4])
@@ -1362,19 +1681,30 @@ def oracle_xs(lines, outs):
             else:
                 ref[p:p] = b
         elif op == "printf":
-            ref += fmt(t[2], t[3])
+            ref += fmt(t[2], t[3]); term = 0
         elif op == "clear":
-            ref = bytearray()
+            ref = bytearray(); term = 0
+        elif op == "setsize":
+            k = int(t[2])
+            if k <= len(ref):
+                term = (ref + bytes([term]))[k]
+                del ref[k:]
+            else:
+                ref += bytes([int(t[3])]) * (k - len(ref)); term = int(t[4])
         elif op == "wrap":
             b, a = unhx(t[2]), int(t[3])
             e = b[:min(len(b), a)]
             if r.get("sz") != str(len(e)) or r.get("d") != hx(e) or r.get("z") != "1" or int(r.get("asz", "0")) <= len(e):
                 bad.append((i, "wrap: %s, reference %s" % (o[:160], hx(e))))
             continue
-        if op not in ("new", "clone") and r.get("rc") != rc:
+        if op not in ("new", "empty", "clone") and r.get("rc") != rc:
             bad.append((i, "%s returned %s, reference %s" % (op, r.get("rc"), rc)))
-        if r.get("sz") != str(len(ref)) or r.get("d") != hx(ref) or r.get("z") != "1" or int(r.get("asz", "0")) <= len(ref):
-            bad.append((i, "%s: string is %s, reference size %d %s (terminated, asize > size)" % (op, o[:200], len(ref), hx(ref)[:120])))
+        if op == "clone":
+            zexp = "1"   # the clone is always terminated
+        else:
+            zexp = "1" if term == 0 else "0"
+        if r.get("sz") != str(len(ref)) or r.get("d") != hx(ref) or r.get("z") != zexp or int(r.get("asz", "0")) <= len(ref):
+            bad.append((i, "%s: string is %s, reference size %d %s (byte after the data %s, asize > size)" % (op, o[:200], len(ref), hx(ref)[:120], "0" if zexp == "1" else "not 0")))
     return bad
 
 
@@ -1417,16 +1747,58 @@ def _check_tree(t, lo, hi, keys):
     return 1 + max(hl, hr)
 
 
+def _valid_bst_postorder(po):
+    """is po the postorder of some binary search tree (distinct keys)?  last = root, the prefix splits into smaller | larger"""
+    stack = [(0, len(po), None, None)]
+    while stack:
+        a, b, lo, hi = stack.pop()
+        if a >= b:
+            continue
+        root = po[b - 1]
+        if (lo is not None and root <= lo) or (hi is not None and root >= hi):
+            return False
+        m = a
+        while m < b - 1 and po[m] < root:
+            m += 1
+        if any(x <= root for x in po[m:b - 1]):
+            return False
+        stack.append((a, m, lo, root)); stack.append((m, b - 1, root, hi))
+    return True
+
+
 def oracle_av(lines, outs):
     bad = []
     ref = set()
     for i, (l, o) in enumerate(zip(lines, outs)):
         t = l.split()
         op = t[1]
-        if op in ("new", "destroy"):
+        if op in ("post", "destroy"):
+            # the three traversal macros: in-order, reverse, and a postorder in which every key comes after the keys of both its subtrees
+            r = kv(o)
+            srt = sorted(ref)
+            msg = None
+            if op == "post" and (r.get("io") != (",".join(map(str, srt)) or "-") or r.get("ro") != (",".join(map(str, reversed(srt))) or "-")):
+                msg = "in-order / reverse traversal"
+            po = [] if r.get("po", "-") == "-" else r["po"].split(",")
+            try:
+                po = [int(x) for x in po]
+            except ValueError:
+                po = None
+            if po is None or sorted(po) != srt or not _valid_bst_postorder(po):
+                msg = "postorder traversal is not a postorder of a search tree over the stored keys"
+            if msg:
+                bad.append((i, "%s: %s, reference keys %s" % (msg, o[:200], ",".join(map(str, srt))[:100])))
+            if op == "destroy":
+                ref = set()
+            continue
+        if op == "new":
             ref = set(); continue
         k = int(t[2])
         r = kv(o)
+        if op == "lookn":
+            if r.get("r") != ("1" if k in ref else "0") or r.get("unl") != "1,0":
+                bad.append((i, "lookup_node / unlinked mark of %d: %s" % (k, o)))
+            continue
         if op == "find":
             lb = max([x for x in ref if x <= k], default=None)
             ub = min([x for x in ref if x >= k], default=None)
@@ -1495,10 +1867,19 @@ def oracle_po(lines, outs):
         elif op == "strdup":
             if r.get("rc") != "0" or r.get("v") != t[2] or r.get("in") != "1":
                 bad.append((i, "strndup: %s, reference %s" % (o[:160], t[2])))
-        elif op == "printf":
+        elif op == "strdupx":
+            b = unhx(t[3])
+            if r.get("rc") != "0" or r.get("v") != hx(b) or r.get("in") != "1":
+                bad.append((i, "strdup family: %s, reference %s" % (o[:160], hx(b))))
+        elif op in ("printf", "printfva"):
             e = hx(unhx(t[2]) + b":" + str(int(t[3])).encode())
             if r.get("v") != e:
-                bad.append((i, "printf: %s, reference %s" % (o[:160], e)))
+                bad.append((i, "%s: %s, reference %s" % (op, o[:160], e)))
+        elif op == "psplit":
+            e = ref_split(unhx(t[2]) + b":" + str(int(t[3])).encode(), unhx(t[4]), t[5] != "0")
+            es = ".".join(hx(x) for x in e) if e else "none"
+            if r.get("v") != es:
+                bad.append((i, "printf_split: %s, reference %s" % (o[:160], es)))
         elif op == "split":
             e = ref_split(unhx(t[2]), unhx(t[3]), t[4] != "0")
             es = ".".join(hx(x) for x in e) if e else "none"
@@ -1808,8 +2189,10 @@ def evaluate(run, scripts, impl, asan, model, record=True):
 
 
 def check(run):
+    global RB_HDR
     rng = run.rng
     proofs_ok = run.proofs()
+    RB_HDR = _rb_hdr()
     impl = vlib.build_harness("h_cont")
     asan = vlib.build_harness("h_cont", "asan")
     model = vlib.build_model("cont")
